@@ -86,10 +86,10 @@ def verTextOK (flagKeys : List Int) (h : Heap) (s : Set) : Bool :=
   (mapView h s).all fun kv =>
     flagKeys.contains (kv.1 : Int) || (!kv.2.isEmpty && !hasSpace kv.2)
 
+/-- `strings.Contains(v, "  ")`. -/
 def hasDoubleSpace : Bytes → Bool
-  | 0x20 :: 0x20 :: _ => true
-  | _ :: rest => hasDoubleSpace rest
-  | [] => false
+  | a :: b :: rest => (a == 0x20 && b == 0x20) || hasDoubleSpace (b :: rest)
+  | _ => false
 
 /-- a value the deptest parser reads back from its quoted form. -/
 def depQuotedOK (v : Bytes) : Bool :=
@@ -104,6 +104,16 @@ def quotedItemsOK : List (Bytes × Option Bytes) → Bool
 /-- every value that must be written quoted is the last item written and is
 `depQuotedOK` (negation: F-C19-deptest-quoted). -/
 def depTextOK (h : Heap) (s : Set) : Bool := quotedItemsOK (depItems h s)
+
+/-- every byte is ASCII. -/
+def isAscii (v : Bytes) : Bool := v.all fun b => decide (b.toNat < 128)
+
+/-- every value that is written quoted is an ASCII string (a limit of the proof of the
+quoted round trip, not a finding class). -/
+def depQuotedAscii (h : Heap) (s : Set) : Bool :=
+  (depItems h s).all fun it => match it.2 with
+    | some v => isAscii v
+    | none => true
 
 /-- no value has to be written quoted (implies `depTextOK`). -/
 def depPlain (h : Heap) (s : Set) : Bool := (depItems h s).all fun it => it.2.isNone
